@@ -317,9 +317,9 @@ def replay(case):
     if row[0] == 'close_explore':
         import random as _r
         from .. import portrun
-        kind, name, sched = row[1:]
+        kind, name, sched = row[1:4]
         run = portrun.run_program(kind, [], CLOSE_PROGRAMS[name], schedule=sched, rng=_r.Random(0), policy='stay',
-                                  record=True, budget=300)
+                                  record=True, budget=300, line_level=len(row) > 4 and row[4])
         r = judge_close(kind, CLOSE_PROGRAMS[name], run)
         return r and '%s: %s' % r
     if row[0] == 'multiburst':
@@ -366,14 +366,27 @@ CLOSE_PROGRAMS = {
     'send-recv': [[_op('send', 1)], [_op('recv')], [_op('close')]],
     'send2-recv2': [[_op('send', 1), _op('send', 2)], [_op('recv'), _op('recv')], [_op('close')]],
     'send-poll-close2': [[_op('send', 1)], [_op('poll'), _op('close')], [_op('close')]],
+    'close-close': [[_op('close')], [_op('close')]],
+    'poll-poll': [[_op('poll')], [_op('poll')]],
+    'poll-close': [[_op('poll')], [_op('close')]],
+    'close-close-close': [[_op('close')], [_op('close'), _op('close')], [_op('close')]],
 }
 CLOSE_PLAN_QUICK = [('echo', 'idle-recv', 3), ('device', 'idle-recv', 3), ('ioport', 'idle-recv', 2), ('multi', 'idle-recv', 2),
                     ('echo', 'send-recv', 2), ('ioport', 'send-recv', 2), ('device', 'send-recv', 1),
-                    ('echo', 'send2-recv2', 1), ('echo', 'send-poll-close2', 2)]
+                    ('echo', 'send2-recv2', 1), ('echo', 'send-poll-close2', 2),
+                    # a thread switch possible before every statement of ports.py (sys.settrace)
+                    ('multi', 'close-close', 1, True), ('echo', 'close-close', 1, True), ('device', 'close-close', 1, True),
+                    ('ioport', 'close-close', 1, True),
+                    # a PortServer with one connection waiting: two polls at once, a poll racing with close
+                    ('server', 'poll-poll', 1, True), ('server', 'poll-close', 1, True), ('server', 'close-close', 1, True)]
 CLOSE_PLAN_THOROUGH = [('echo', 'idle-recv', 4), ('device', 'idle-recv', 4), ('ioport', 'idle-recv', 3), ('multi', 'idle-recv', 3),
                        ('echo', 'send-recv', 3), ('ioport', 'send-recv', 3), ('device', 'send-recv', 2), ('multi', 'send-recv', 2),
                        ('echo', 'send2-recv2', 2), ('ioport', 'send2-recv2', 2), ('echo', 'send-poll-close2', 3),
-                       ('ioport', 'send-poll-close2', 2)]
+                       ('ioport', 'send-poll-close2', 2),
+                       ('multi', 'close-close', 2, True), ('echo', 'close-close', 2, True), ('device', 'close-close', 2, True),
+                       ('ioport', 'close-close', 2, True), ('multi', 'close-close-close', 2, True),
+                       ('device', 'send-recv', 1, True), ('multi', 'idle-recv', 1, True),
+                       ('server', 'poll-poll', 2, True), ('server', 'poll-close', 2, True), ('server', 'close-close', 2, True)]
 CLOSE_SHARDS = 8
 
 
@@ -398,9 +411,17 @@ def judge_close(kind, prog, run):
             if op['op'] == 'recv' and k not in ('msg', 'raise:OSError', 'raise:ValueError'):
                 return 'close-race/receive-result', 'blocking receive() ended with %s' % k
             if op['op'] == 'poll' and k not in ('msg', 'none'):
-                return 'close-race/poll-result', 'poll() ended with %s' % k
+                # a poll that overlaps a close() of another thread is neither "before" nor
+                # "after" it: ending like a blocking receive (ValueError / OSError) is tolerated
+                others_close = any(o['op'] == 'close' for tj, os_ in enumerate(prog) if tj != ti for o in os_)
+                if not (others_close and k in ('raise:ValueError', 'raise:OSError')):
+                    return 'close-race/poll-result', 'poll() ended with %s' % k
             if k == 'msg':
                 got += r['v']
+    ncl = sum(1 for ops in prog for op in ops if op['op'] == 'close')
+    if ncl and any(n != 1 for n in run.get('releases', [])):
+        return ('close-race/released-%s-times' % max(run['releases']),
+                '%d close() calls released the device(s) %r times' % (ncl, run['releases']))
     rest = run.get('drained')
     if rest is None or any(not isinstance(x, int) for x in rest):
         return 'close-race/drain-raises', 'draining the closed port: %r' % (rest,)
@@ -418,17 +439,17 @@ def judge_close(kind, prog, run):
 def close_explore_worker(jobs):
     from .. import portrun
     res = {'n': 0, 'viol': [], 'samples': [], 'counts': {}}
-    for kind, name, k, shard, limit in jobs:
+    for kind, name, k, shard, limit, line_level in jobs:
         prog = CLOSE_PROGRAMS[name]
 
         def judge(run, sched):
             r = judge_close(kind, prog, run)
             if r and len(res['viol']) < 6:
                 res['viol'].append(('lifecycle/%s/%s' % (r[0], kind),
-                                    {'row': ['close_explore', kind, name, sched]},
+                                    {'row': ['close_explore', kind, name, sched, line_level]},
                                     '%s (program %s, schedule %r)' % (r[1], name, sched)))
         n, complete = portrun.explore(kind, [], prog, k, limit=limit, judge=judge, shard=(shard, CLOSE_SHARDS),
-                                      budget=300)
+                                      budget=300, line_level=line_level)
         res['n'] += n
         key = 'close_race_%s_%s' % (kind, name)
         res['counts'][key] = res['counts'].get(key, 0) + n
@@ -543,7 +564,8 @@ def run(ctx):
     # send / receive / poll / a second close on the real ports
     plan = CLOSE_PLAN_THOROUGH if thorough else CLOSE_PLAN_QUICK
     pr2 = core.ParallelReplay(ctx, close_explore_worker, batch_size=1)
-    pr2.map([[(kind, name, k, sh, 40000 if thorough else 2500)] for kind, name, k in plan for sh in range(CLOSE_SHARDS)])
+    pr2.map([[(e[0], e[1], e[2], sh, 40000 if thorough else 2500, len(e) > 3 and e[3])]
+             for e in plan for sh in range(CLOSE_SHARDS)])
     ctx.note('close_race_schedules', pr2.n)
     r, skipped = check_server_close_while_receiving()
     ctx.replayed += 1
